@@ -4,7 +4,8 @@ import NeoFS.Model.Access
 Read off the method comments and `doc.go` files (DESIGN.md appendix H). A requirement is a Boolean
 function of "which witness atoms hold"; atoms are named as the translator names them
 (`W:alphabet` = the 2n/3+1 Alphabet multi-signature account, `W:committee` = the n/2+1 committee account,
-`W:<param>` = witness of the key / script hash passed as that parameter, `CALLER:<x>` = the calling
+`W:<param>` = witness of the key / script hash passed as that parameter (constants of the repository appear by VALUE,
+unexported one-line helpers by their body, range variables as `elem(<ranged expression>)`, so that renaming them changes nothing), `CALLER:<x>` = the calling
 contract is `x`, `W:state.Owner` / `W:state.Admin` = witness of the owner / admin recorded for the name). -/
 namespace NeoFS.Access.Expect
 
@@ -25,6 +26,9 @@ inductive Req where
 /-- main-chain Alphabet in either mode: the notary multi-signature or (vote mode) a stored Alphabet key -/
 def mainAlphabet (h : Holds) : Bool := A h || W "storedAlphabetKey" h || W "neofs.AlphabetAddress()" h
 
+/-- audit.put: the `From` field of the header decoded from the argument by an (unexported, freely named) helper of the contract -/
+def auditSender (h : Holds) : Bool := h (fun a => a.startsWith "W:audit." && a.endsWith "(rawAuditResult).From")
+
 def req (contract method : String) : Req :=
   if method == "_deploy" || method == "_initialize" then .exempt "not callable through the contract call interface"
   else if method == "update" then
@@ -34,7 +38,7 @@ def req (contract method : String) : Req :=
      else if method == "vote" then .needs A
      else .anyGuard)
   else if contract == "audit" then
-    (if method == "put" then .needs (W "audit.newAuditHeader(rawAuditResult).From") else .anyGuard)
+    (if method == "put" then .needs auditSender else .anyGuard)
   else if contract == "balance" then
     (if method == "transfer" then .needs (fun h => W "from" h || CALLER "from" h) else .needs A)
   else if contract == "container" then
@@ -49,7 +53,7 @@ def req (contract method : String) : Req :=
      else .needs mainAlphabet)
   else if contract == "neofsid" then .needs A
   else if contract == "netmap" then
-    (if method == "addPeer" then .needs (fun h => A h && W "nodeInfo[nodeKeyOffset:nodeKeyEndOffset]" h)
+    (if method == "addPeer" then .needs (fun h => A h && W "nodeInfo[2:35]" h)
      else if method == "addNode" then .needs (fun h => A h && W "n.Key" h)
      else if method == "updateState" then .needs (fun h => A h && W "publicKey" h)
      else .needs A)
